@@ -115,42 +115,28 @@ def main():
         if tier == "thorough": cmd.append("--thorough")
         return subprocess.Popen(cmd, stdout=subprocess.PIPE, stderr=subprocess.PIPE, text=True, env=env)
 
-    results, failures, crashes, broken = [], [], [], []
-    procs = {w: (spawn(w, w), w) for w in range(WORKERS)}
-    deadline = t0 + budget["secs"] + 240
+    results, failures, broken = [], [], []
+    procs = {w: spawn(w, w) for w in range(WORKERS)}
+    deadline = t0 + budget["secs"] + 600
+    for w, p in procs.items():
+        try:
+            out, err = p.communicate(timeout=max(1, deadline - time.time()))
+        except subprocess.TimeoutExpired:
+            p.kill(); out, err = p.communicate()
+            broken.append("worker %d exceeded the wall-clock cap" % w)
+        done = False
+        for line in out.splitlines():
+            if not line.startswith("{"): continue
+            try: j = json.loads(line)
+            except Exception: continue
+            if j.get("done"): done = True; continue
+            if j.get("nondeterministic"):
+                broken.append("run %s did not fail the same way twice (%s / %s)" % (j.get("run"), j.get("cls"), j.get("cls2"))); continue
+            if j.get("ok", True): results.append(j)
+            else: failures.append(j)
+        if not done and not any("worker %d " % w in b for b in broken):
+            broken.append("worker %d (supervisor process) ended early, rc=%s: %s" % (w, p.returncode, err[-300:]))
     restarts = 0
-    while procs:
-        for w in list(procs):
-            p, _ = procs[w]
-            try:
-                out, err = p.communicate(timeout=max(1, deadline - time.time()))
-            except subprocess.TimeoutExpired:
-                p.kill(); out, err = p.communicate()
-                broken.append("worker %d exceeded the wall-clock cap" % w)
-            del procs[w]
-            last_begin = None
-            done = False
-            for line in out.splitlines():
-                if not line.startswith("{"): continue
-                try: j = json.loads(line)
-                except Exception: continue
-                if "begin" in j: last_begin = j["begin"]; continue
-                if j.get("done"): done = True; continue
-                if j.get("nondeterministic"):
-                    broken.append("run %s did not fail the same way twice" % j.get("run")); continue
-                results.append(j)
-                if not j.get("ok", True): failures.append(j)
-            if not done and p.returncode not in (0, None) and not broken:
-                # the worker died inside run `last_begin`
-                tag = "%s_%d" % (prop, w)
-                cur = "replays/.cur.%s.plan" % tag
-                keep = "replays/%s_%d_crash_%s.plan" % (prop, seed, last_begin)
-                if os.path.exists(cur): os.replace(cur, keep)
-                tail = "\n".join(err.splitlines()[:14])
-                crashes.append({"run": last_begin, "rc": p.returncode, "replay": keep, "stderr": tail})
-                if last_begin is not None and restarts < 64 and time.time() < t0 + budget["secs"]:
-                    restarts += 1
-                    procs[w] = (spawn(w, last_begin + WORKERS), w)
 
     # ---- gate and classify
     known = [k for k in load_known()]
@@ -160,20 +146,9 @@ def main():
         if rc != 1:
             broken.append("failure of run %s does not reproduce in a fresh process (rc=%s)" % (f["run"], rc)); continue
         pid = prop_of(f["cls"], prop)
-        text = f["cls"] + "|" + f.get("detail", "")
+        text = f["cls"] + "|" + f.get("detail", "") + "|" + out[-3000:]
         k = next((k for k in known if k.get("property") == pid and re.search(k.get("match", "$^"), text)), None)
         (knownhits if k else viol).append((pid, f, k))
-    for c in crashes:
-        if not os.path.exists(c["replay"]):
-            broken.append("worker died (rc=%s) outside a run" % c["rc"]); continue
-        rc, out = replay(c["replay"])
-        if rc in (0, 1, 2):
-            broken.append("crash of run %s does not reproduce (replay rc=%s)" % (c["run"], rc)); continue
-        text = "CRASH|" + c["stderr"] + out[-3000:]
-        k = next((k for k in known if k.get("property") == prop and re.search(k.get("match", "$^"), text, re.S)), None)
-        c["cls"] = "CRASH:" + prop; c["detail"] = c["stderr"][:400]
-        (knownhits if k else viol).append((prop, c, k))
-
     # ---- probes of the known findings of this property
     known_lines = []
     for k in known:
@@ -191,7 +166,7 @@ def main():
 
     # ---- evidence
     wall = time.time() - t0
-    okruns = [r for r in results]
+    okruns = [r for r in results] + [f for f in failures if "ops" in f]
     pats = [re.compile(x) for x in CHAR.get(prop, [r"."])]
     def nontrivial(r):
         return any(p.search(k) and v > 0 for k, v in r.get("ops", {}).items() for p in pats)
@@ -228,7 +203,8 @@ def main():
             "function_evaluations": sum(r.get("evals", 0) for r in okruns),
             "nodes_audited": sum(r.get("nodes_audited", 0) for r in okruns),
             "workers": WORKERS,
-            "worker_restarts": restarts,
+            "failing_runs": len(failures),
+            "isolation": "every run, every gate re-run and every minimisation candidate executes in its own forked process",
             "real_code": "all of /repo/src compiled from the working tree with -DMEDDLY_VERIF (ASan+UBSan subset)",
             "stubs": "libc time/srand/rand/random; in-memory disk behind MEDDLY::input/output; malloc/realloc failure seam (C18 only)",
             "known_findings_reported": known_lines,
